@@ -491,3 +491,64 @@ pub proof fn lemma_content_rlp_injective(s1: nat, m1: Map<Seq<u8>, Seq<u8>>, s2:
     lemma_parse_pairs_roundtrip(m2);
 }
 
+
+/// the reserved key names are pairwise distinct
+pub proof fn lemma_keys_distinct()
+    ensures
+        ID() != IP(), ID() != IP6(), ID() != TCP(), ID() != TCP6(), ID() != UDP(), ID() != UDP6(), ID() != SECP(), ID() != ED(), ID() != CLIENT(),
+        IP() != IP6(), IP() != TCP(), IP() != TCP6(), IP() != UDP(), IP() != UDP6(), IP() != SECP(), IP() != ED(), IP() != CLIENT(),
+        IP6() != TCP(), IP6() != TCP6(), IP6() != UDP(), IP6() != UDP6(), IP6() != SECP(), IP6() != ED(), IP6() != CLIENT(),
+        TCP() != TCP6(), TCP() != UDP(), TCP() != UDP6(), TCP() != SECP(), TCP() != ED(), TCP() != CLIENT(),
+        TCP6() != UDP(), TCP6() != UDP6(), TCP6() != SECP(), TCP6() != ED(), TCP6() != CLIENT(),
+        UDP() != UDP6(), UDP() != SECP(), UDP() != ED(), UDP() != CLIENT(),
+        UDP6() != SECP(), UDP6() != ED(), UDP6() != CLIENT(),
+        SECP() != ED(), SECP() != CLIENT(), ED() != CLIENT(),
+        !is_port_key(ID()), !is_port_key(IP()), !is_port_key(IP6()), !is_port_key(SECP()), !is_port_key(ED()), !is_port_key(CLIENT()),
+{
+    assert(ID().len() == 2 && IP().len() == 2 && IP6().len() == 3 && TCP().len() == 3 && TCP6().len() == 4 && UDP().len() == 3
+        && UDP6().len() == 4 && SECP().len() == 9 && ED().len() == 7 && CLIENT().len() == 6);
+    assert(ID()[1] != IP()[1]);
+    assert(IP6()[0] != TCP()[0] && IP6()[0] != UDP()[0] && TCP()[0] != UDP()[0] && TCP6()[0] != UDP6()[0]);
+}
+
+// ---- typed values written by the setters are well formed and read back ----
+pub proof fn lemma_port_stored(key: Seq<u8>, p: nat)
+    requires is_port_key(key), p <= u16::MAX,
+    ensures
+        stored_ok(key, rlp_uint(p)),
+        uint_ok(rlp_uint(p), 2),
+        be_val(item_payload(rlp_uint(p), parse_hdr(rlp_uint(p))->0)) == p,
+{
+    lemma_be_trim_len_u16(p);
+    lemma_rlp_uint_parses(p, 2, Seq::empty());
+    assert(rlp_uint(p) + Seq::<u8>::empty() =~= rlp_uint(p));
+    lemma_keys_distinct();
+}
+pub proof fn lemma_fixed_str_stored(key: Seq<u8>, o: Seq<u8>)
+    requires o.len() < 0x1_0000_0000,
+    ensures
+        one_item(rlp_str(o)),
+        fixed_str_ok(rlp_str(o), o.len()),
+        parse_hdr(rlp_str(o)) matches Some(h) && !h.list && item_payload(rlp_str(o), h) == o,
+{
+    lemma_rlp_str_stored(o);
+}
+pub proof fn lemma_ip4_stored(o: Seq<u8>)
+    requires o.len() == 4,
+    ensures stored_ok(IP(), rlp_str(o)),
+{
+    lemma_fixed_str_stored(IP(), o);
+    lemma_keys_distinct();
+}
+pub proof fn lemma_ip6_stored(o: Seq<u8>)
+    requires o.len() == 16,
+    ensures stored_ok(IP6(), rlp_str(o)),
+{
+    lemma_fixed_str_stored(IP6(), o);
+    lemma_keys_distinct();
+}
+pub proof fn lemma_id_stored()
+    ensures stored_ok(ID(), rlp_str(V4())),
+{
+    lemma_rlp_str_stored(V4());
+}
